@@ -27,6 +27,7 @@ type Options struct {
 	HarnessDir     string
 	Overlay        map[string][]byte
 	Tier           string
+	Variant        int // thorough tier: which focus variant of a harness is being explored
 }
 
 type Intrinsic func(m *Machine, fn *ssa.Function, args []Value) Value
